@@ -5,13 +5,14 @@ SPEC = dict(
     driver="C03",
     harness="c03.cpp",
     theorems=[
+        "SymVerif.C03.api_canon", "SymVerif.C03.api_canon_add", "SymVerif.C03.spec",
         "SymVerif.C03.addE_inv", "SymVerif.C03.addE_canon", "SymVerif.C03.addN_inv", "SymVerif.C03.addN_canon",
-        "SymVerif.C03.api_canon_add",
-        "SymVerif.C03.spec_all",
-        "SymVerif.C03.mulEO_inv_partial", "SymVerif.C03.negEO_inv_partial", "SymVerif.C03.subEO_inv_partial",
-        "SymVerif.C03.powEO_inv_partial", "SymVerif.C03.divEO_inv_partial", "SymVerif.C03.sqrtEO_inv_partial",
-        "SymVerif.C03.cbrtEO_inv_partial", "SymVerif.C03.mulNO_inv_partial",
-        "SymVerif.C03.api_canon_partial", "SymVerif.C03.C03_full_of_obligations",
+        "SymVerif.C03.mulEO_inv", "SymVerif.C03.negEO_inv", "SymVerif.C03.subEO_inv", "SymVerif.C03.powEO_inv",
+        "SymVerif.C03.divEO_inv", "SymVerif.C03.sqrtEO_inv", "SymVerif.C03.cbrtEO_inv", "SymVerif.C03.mulNO_inv",
+        "SymVerif.C03.mulE_canon", "SymVerif.C03.powE_canon", "SymVerif.C03.divE_canon", "SymVerif.C03.subE_canon",
+        "SymVerif.C03.negE_canon", "SymVerif.C03.sqrtE_canon", "SymVerif.C03.mulN_canon",
+        "SymVerif.C03.spec_all", "SymVerif.C03.api_canon_partial",
+        "SymVerif.Arith.radShape", "SymVerif.Arith.powerExpOK", "SymVerif.Arith.rpowrat_fix",
         "SymVerif.Arith.key_inj", "SymVerif.Arith.inv_canon", "SymVerif.Arith.mulFromDict_inv",
         "SymVerif.Arith.addFromDict_inv", "SymVerif.Arith.addDictAddTerm_ok", "SymVerif.Arith.addMergeLoop_ok",
         "SymVerif.Arith.coefDictAddTerm_ok", "SymVerif.Arith.addCore_inv",
@@ -19,16 +20,15 @@ SPEC = dict(
         "SymVerif.Arith.step_powerNum", "SymVerif.Arith.step_powerNumLoop", "SymVerif.Arith.step_rpowrat",
         "SymVerif.Arith.step_powF", "SymVerif.Arith.step_powGeneric",
     ],
-    partial=["mulEO/negEO/subEO/powEO/divEO/sqrtEO/cbrtEO/mulNO_inv_partial, api_canon_partial: relative to the two "
-             "model-level hypotheses RadShape (Number**Rational evaluates to a Number, Mul or Pow) and PowerExpOK "
-             "(the exponent v*n that power_num passes on is non-zero and legal for its base); the unconditional "
-             "statement is `def C03_full`, `C03_full_of_obligations` reduces it to the two hypotheses",
-             "noBadCast is not a separate theorem: every theorem has the form `f … = .ok r → inv r`"],
-    level_note="Add side (add, add(vec), Add::from_dict, dict_add_term, coef_dict_add_term, as_coef_term) proved "
-               "unconditionally; Mul/Pow side: induction step of all 15 mutually recursive functions proved, "
-               "assembled relative to two explicit hypotheses about the model (see partial). The invariant "
-               "proved is inv = canon && strong: the library's is_canonical plus the per-factor clauses that make "
-               "it inductive (the library's own invariant is not inductive, witness in Props/C03.lean).",
+    partial=["noBadCast is not a separate theorem: every theorem has the form `f ... = .ok r -> inv r`; that the model "
+             "never returns Err.badCast / Err.assert on reachable inputs is established by the correspondence only",
+             "the theorems are about inv = canon && strong (the library's is_canonical plus the per-factor clauses "
+             "that make it inductive); inputs that pass is_canonical but not `strong` (never produced by the "
+             "constructors, e.g. Mul(3,{2:3/2})) are outside the theorem, witness in Props/C03.lean"],
+    level_note="unconditional: api_canon - every value of every program over add/sub/neg/mul/div/pow/sqrt/cbrt/"
+               "add(vec)/mul(vec) of the model satisfies inv, hence Add/Mul/Pow/Rational/Complex::is_canonical on "
+               "every node, for both dictionary iteration orders and every recursion fuel. Other API families: "
+               "assertion oracle of their own work packages only.",
     technique="executable Lean model of add.cpp/mul.cpp/pow.cpp/rational.cpp mirrored branch by branch; "
               "correspondence on tree dumps; invariants by induction on recursion fuel",
     rule="one op = one call of add/sub/mul/div/pow/neg/sqrt/cbrt/add(vec)/mul(vec) on operands that the "
